@@ -158,6 +158,26 @@ def boundary_script(rng, algo, name):
     return Script(name, ops, {"suite": "core"})
 
 
+def poison_script(rng, algo, name):
+    """datagrams that FAIL authentication (altered copies of genuine ones with newer counters, forged ones) must not move the replay window: the genuine
+    datagrams, delivered after two further ticks, are the newest thing the receiver has ever accepted and must be accepted"""
+    ops = ["cnew " + algo]
+    nd = 0
+    for side, other in (("a", "b"), ("b", "a")):
+        first = nd
+        for _ in range(4):
+            ops.append("seal %s %s" % (side, hx(rng.bytes(4))))
+            nd += 1
+        ops.append("deliver d%d %s" % (first, other))                               # the window is in use
+        for k in (first + 3, first + 2):
+            ops.append("deliver d%d %s flip=%d" % (k, other, 64 + rng.below(80)))   # altered ciphertext / tag of NEWER datagrams
+            ops.append("deliver d%d %s trunc=%d" % (k, other, 20 + rng.below(6)))
+        ops += ["tick " + other, "tick " + other, "tick " + other]
+        for k in (first + 1, first + 2, first + 3):
+            ops.append("deliver d%d %s" % (k, other))
+    return Script(name, ops, {"suite": "core"})
+
+
 def forge_script(rng, algo, name):
     """C02: datagrams sealed by somebody who was never given a session key: under the all-zero / all-ones / a random key, naming every key slot
     (0 = the agreed key, 1..3 = slots that no key has been rotated into yet), towards both ends, before and after a rotation"""
@@ -181,6 +201,8 @@ def core_scripts(tier, rng, focus):
         for a in ALGOS:
             yield boundary_script(rng, a, "boundary-" + a)
     if focus in ("C03", "all"):
+        for a in ALGOS:
+            yield poison_script(rng, a, "poison-" + a)
         depth = 9 if thorough else 6
         for a in (ALGOS if thorough else ["chacha"]):
             for d in range(2, depth + 1):
